@@ -544,8 +544,8 @@ def _execute(case, res, tmp):
                 from glue.viewers.profile.state import ProfileViewerState
                 profiles.append({'state': ProfileViewerState()})
             elif k == 'p_add':
-                if not profiles:
-                    continue
+                if not profiles or w.cms:
+                    continue        # (state-level harness: not driven while removals are still queued in a hub window)
                 from glue.viewers.profile.state import ProfileLayerState
                 st = profiles[op[1] % len(profiles)]['state']
                 d = w.pick_data(op[2])
@@ -554,7 +554,7 @@ def _execute(case, res, tmp):
                 st.layers.append(ProfileLayerState(viewer_state=st, layer=d))
                 res.probe('profile_layer_added')
             elif k == 'p_remove':
-                if not profiles:
+                if not profiles or w.cms:
                     continue
                 st = profiles[op[1] % len(profiles)]['state']
                 if st.layers:
@@ -645,6 +645,7 @@ def _execute(case, res, tmp):
                 del viewers[:]
                 del helpers[:]
                 del images[:]
+                del profiles[:]
                 app = w.restore(path)
                 w.rebind(app)
                 res.fault('crash_restart')
